@@ -308,6 +308,13 @@ class Gen:
         ad2 = dict(ad)
         ad2["node"] = nb
         yield ad2
+        if r.random() < 0.35:
+            # namespaces made from each of the two (content-equal) registries: every unit / constant in a
+            # namespace belongs to the registry the namespace was made from
+            what = r.choice(["symbols", "symbols", "constants"])
+            pick = [r.randrange(900) for _ in range(3)]
+            yield {"k": "namespace", "node": na, "h": 0, "what": what, "pick": pick}
+            yield {"k": "namespace", "node": nb, "h": 0, "what": what, "pick": pick}
         s1 = self.spell(sym, r.choice(["atomic", "prefixed", "atomic"]))
         yield {"k": "quantity", "node": na, "h": 0, "v": 2.0, "s": s1, "route": "ctor", "store": True}
         ia = w.last_stored
